@@ -134,6 +134,9 @@ let handle (req : json) : unit =
     | "alphabet", [ss] -> p_res (p_list p_str) (get_alphabet_from_selfies (j_list j_str ss))
     | "idx_from", [syms] -> p_n (get_index_from_selfies (j_list (j_opt j_str) syms))
     | "spec_idx", [syms] -> p_n (doc_value (List.map doc_digit (j_list (j_opt j_str) syms)))
+    | "wf_parse", [s] -> p_opt (p_list (p_pair p_str p_bool)) (wf_parse (j_str s))
+    | "wf_tokens", [l] -> p_list p_str (tokens (j_list (j_pair j_str j_bool) l))
+    | "wf_render", [l] -> p_str (render (j_list (j_pair j_str j_bool) l))
     | "idx_to", [n] -> p_res (p_list p_str) (get_selfies_from_index (j_z n))
     | "modernize", [s] -> p_res p_str (modernize_symbol (j_str s))
     | "atom_sym", [t; s] ->
